@@ -75,6 +75,11 @@ func goCertToFileString(c ssh.Certificate, username string) (string, error) {
 
 // gen_user_cert a username and key, returns a short lived cert for that user
 func GenSSHCertFileString(username string, userPubKey string, signer ssh.Signer, host_identity string, duration time.Duration, customExtensions map[string]string) (certString string, cert ssh.Certificate, err error) {
+	if duration < 0 {
+		// A negative duration would wrap around in the unsigned epoch
+		// arithmetic below and could yield a never-expiring certificate.
+		return "", cert, fmt.Errorf("invalid (negative) duration: %s", duration)
+	}
 	userKey, _, _, _, err := ssh.ParseAuthorizedKey([]byte(userPubKey))
 	if err != nil {
 		return "", cert, err
